@@ -570,7 +570,12 @@ func runConc(c Case, tmp string, res *lib.Result) {
 	}
 }
 
-func runCase(c Case, tmp string, res *lib.Result) string {
+func runCase(c Case, tmp string, res *lib.Result) (ret string) {
+	defer res.Recover(c)
+	return runCaseRaw(c, tmp, res)
+}
+
+func runCaseRaw(c Case, tmp string, res *lib.Result) string {
 	dir, _ := os.MkdirTemp(tmp, "c10-")
 	defer os.RemoveAll(dir)
 	if c.Kind == "seq" {
